@@ -141,6 +141,17 @@ func init() {
 			w7("ZZBinaryDecode", "binary-twocuts", map[string]int64{"keylen": 1, "datalen": 1, "twocuts": 1, "kind1": 13}, two, "two cuts, quiet batch GetQ GetQ Noop"),
 			w7("ZZTextDecode", "text-k8-d5-5digits", map[string]int64{"keylen": 8, "datalen": 5, "digits": 5}, two, "key 8, data 5, 5-digit numeric fields"),
 		}})
+
+	reg(Check{ID: "C17", Level: "model_checking", Assumptions: append([]string{
+		"A1: clock frozen during one command; entries expire at exptime relative to the symbolic instant, the boundary second (exptime == now) is left out",
+		"TTLs up to 30 days (larger values are read as relative by this debug backend: documented simplification, not part of C17); GetE's expiry field is not compared",
+		"map state: 2 keys (sequential) / 1 key (concurrent), membership enumerated, expiry/flags/bytes symbolic",
+		"concurrency: 2 goroutines x 1 command, every interleaving at lock-operation granularity (A5: any waiter may win); lock discipline of the shared map enforced by an engine monitor (rt.Guard), natively confirmed under the race detector",
+	}, stdAssumptions...),
+		Quick: []Job{
+			{Pkg: "./handlers/inmem", Func: "ZZStep", Reach: []string{"step-done"}, Bounds: "10 command kinds (incl. 2-key get/gete) from every 2-key map state"},
+			{Pkg: "./handlers/inmem", Func: "ZZConcurrent", Sched: true, Race: true, Reach: []string{"both-done"}, Bounds: "2 goroutines x {set,add,delete,get,append,touch,gete} on one key, all schedules"},
+		}})
 }
 
 func itoa(n int64) string { return strconv.FormatInt(n, 10) }
